@@ -108,8 +108,30 @@ def f_versions(sess, tier):
          vs == [(2, 0), (1, 4), (1, 3), (1, 2), (1, 1), (1, 0)], "self._protocol_versions = %r" % (vs,))
 
 
+def f_crypto_wrapped(sess, tier):
+    """C13: the three operations of the cryptography engine that drive the library with
+    request-controlled parameters are the error-mapping wrapper (whose contract is proved)."""
+    from kmip.services.server.crypto import engine as CE
+    K = CE.CryptographyEngine
+    for name in ("encrypt", "decrypt", "derive_key"):
+        f = inspect.getattr_static(K, name)
+        cells = {}
+        if getattr(f, '__closure__', None):
+            cells = dict(zip(f.__code__.co_freevars, [c.cell_contents for c in f.__closure__]))
+        ok = f.__qualname__.endswith('_report_library_errors.<locals>.wrapper') and \
+            getattr(cells.get('function'), '__name__', None) == name
+        _rec(sess, "fact:C13/CryptographyEngine.%s-reports-library-errors-as-KMIP-errors" % name, ok,
+             "CryptographyEngine.%s is %s wrapping %r" % (name, f.__qualname__, cells.get('function')))
+
+
+def f_tag_blocks(sess, tier):
+    from contracts import spec_versions as SV
+    msg = SV.consistent_with_enum_sections()
+    _rec(sess, "fact:C16/tag-blocks-per-version-agree-with-the-specification-table", msg is None, msg or "ok")
+
+
 def units(names, ctx):
-    table = {"lock": f_lock, "state_frame": f_state_frame, "autoincrement": f_autoincrement,
+    table = {"tag_blocks": f_tag_blocks, "crypto_wrapped": f_crypto_wrapped, "lock": f_lock, "state_frame": f_state_frame, "autoincrement": f_autoincrement,
              "versions": f_versions}
     out = []
     for nm in names:
